@@ -18,7 +18,7 @@ var serveExplain = map[string]string{
 	"C14": "The sequence of ConnState values the serve loop reports, decided on every path of the loop as an automaton: StateActive only follows New/Idle, StateIdle only follows Active, the handler and the response write happen in Active, an iteration that continues ends in Idle, and StateActive is only reported on a path on which a read of at least one byte succeeded; (R3) every function that runs the serve loop itself and reports states (ServeConn) reports StateNew before serving and, on every path to its return after StateNew was reported (served or turned away), exactly one terminal state - StateHijacked exactly when the loop returned errHijacked, StateClosed otherwise. Not decided: the reports made by the worker pool (C13.R2 decides its terminal action) and cross-goroutine ordering.",
 	"C15": "Structural necessary conditions of graceful shutdown inside the serve loop, on every path: the per-connection idle marker is zero while the handler runs (so Shutdown's idle closer cannot close a busy connection), it is set non-zero after the response before the connection waits for the next request, the stop flag is tested after every response, and (R5) a response that was written into the connection writer is flushed before the writer is dropped whenever the serve function ends with a nil result (shutdown, client stopped sending) - so no answered request loses its response on a graceful end; (R6) in the shutdown code the Done channel is closed only under a false 'already closed' flag and the flag is raised after it, and wherever the channel reference is dropped the flag is lowered again on every path - otherwise the next Serve/Shutdown cycle of the same Server never closes its requests' Done channels; (E1) the open-connection counter Shutdown waits on is exact: ServeConn, serveConnCounted, serveConnCleanup and Serve each have the net effect on it that their contract states, on every path - a connection that is counted down twice lets Shutdown return nil while a handler is still running. Not decided: Shutdown's poll loop and listener handling, liveness, interleavings.",
 	"C16": "Structural necessary conditions for timed-out handlers, on every path of the serve loop's timeoutResponse != nil branch: the response is written from a freshly acquired ctx into which the stored response was copied (R1); the timed-out ctx is never released to the pool by the loop (R2); no per-request field the loop stored on the old ctx is read from the fresh one (R3); (R6) the concurrency slot a timeout wrapper takes from Server.concurrencyCh is taken without blocking (429 otherwise), and it is given back only by code that has run the wrapped handler to its end - in the goroutine that calls it, after the call - exactly once; never by the wrapper's own frame, which returns when the timeout fires while the handler still runs; the semaphore field is read only by code that creates the channel when it is missing (a nil channel would turn every call into a 429); (R7) every bookkeeping field the serve function keeps on the ctx (connection id, connection time, request number, request time) is assigned on every path from each point where the ctx object is acquired or replaced to the handler dispatch, so requests served after a timed-out one see them. Not decided: what the late handler does with the old ctx, scheduling.",
-	"C17": "Structural necessary conditions of connection hijacking, on every path: the response is written and flushed before the hand-off unless HijackSetNoResponse is in effect (R1); after 'go hijackConnHandler' the serve function performs no I/O on the connection and releases neither ctx nor the handed-over reader (R3); it returns errHijacked exactly on hand-off paths (R4); hijackConnHandler closes the connection after the user's handler unless KeepHijackedConns and releases the ctx (R5); hijack state a handler put on the ctx without hijacking does not survive into a later request of the connection (R6); every method of the connection wrapper handed to the hijack handler takes data off the connection only through the buffered reader that still holds what the client sent with the hijacking request, never from the raw connection (R7); hijackConnHandler does not recycle the ctx while a connection the handler kept (KeepHijackedConns) still reads through it, which is the case under ReduceMemoryUsage, where the buffered reader reads through a field of the ctx (R8). Not decided: byte-exact hand-over of buffered data, callers' reaction to errHijacked.",
+	"C17": "Structural necessary conditions of connection hijacking, on every path: the response is written and flushed before the hand-off unless HijackSetNoResponse is in effect (R1); after 'go hijackConnHandler' the serve function performs no I/O on the connection and releases neither ctx nor the handed-over reader (R3); it returns errHijacked exactly on hand-off paths (R4); hijackConnHandler closes the connection after the user's handler unless KeepHijackedConns and releases the ctx (R5); hijack state a handler put on the ctx without hijacking does not survive into a later request of the connection (R6); every method of the connection wrapper handed to the hijack handler takes data off the connection only through the buffered reader that still holds what the client sent with the hijacking request, never from the raw connection (R7); hijackConnHandler does not recycle the ctx while a connection the handler kept (KeepHijackedConns) still reads through it, which is the case under ReduceMemoryUsage, where the buffered reader reads through a field of the ctx (R8). (R9) every path into the hijack hand-off passes an unconditional SetDeadline(zero) on the connection after any deadline the serve function armed - per-request timeouts make every configuration test of 'is a deadline pending' wrong. Not decided: byte-exact hand-over of buffered data, callers' reaction to errHijacked.",
 }
 
 func init() {
@@ -29,6 +29,7 @@ func init() {
 			if id == "C17" {
 				hijackHandlerRule(p, r)
 				hijackReadPathRule(p, r)
+				hijackDeadlinesCleared(p, r)
 			}
 			if id == "C11" {
 				resetCoverageRule(p, r)
@@ -1737,4 +1738,88 @@ func streamNotUsedAfterRelease(p *Prog, r *Report) {
 		}
 	}
 	r.Floor("R-uar", "calls that release a stream held in a field", n, 3)
+}
+
+// hijackDeadlinesCleared (C17.R9): the hijack handler must be able to read what
+// the client sends later. Deadlines may have been armed on the connection from
+// the server-wide timeouts or per request (HeaderReceived), so no configuration
+// test can tell whether one is pending: every path to the start of the hijack
+// goroutine passes an unconditional SetDeadline call on the connection after
+// the last read or write deadline the serve function may have set.
+func hijackDeadlinesCleared(p *Prog, r *Report) {
+	fn := p.Func("(*Server).serveConnCounted")
+	hj := p.Func("hijackConnHandler")
+	if fn == nil || hj == nil {
+		r.Undecided("R9", "serveConnCounted / hijackConnHandler", "not found")
+		return
+	}
+	isClear := func(i ssa.Instruction) bool {
+		c, ok := i.(ssa.CallInstruction)
+		if !ok || !c.Common().IsInvoke() || c.Common().Method.Name() != "SetDeadline" || !typeIsNetConn(c.Common().Value.Type()) {
+			return false
+		}
+		// the zero time: a load of the package-level zero value, or a zero composite
+		a := c.Common().Args[0]
+		return globalOf(a) != "" || isZeroTimeValue(a)
+	}
+	isArm := func(i ssa.Instruction) bool {
+		c, ok := i.(ssa.CallInstruction)
+		if !ok || !c.Common().IsInvoke() || !typeIsNetConn(c.Common().Value.Type()) {
+			return false
+		}
+		nm := c.Common().Method.Name()
+		return (nm == "SetReadDeadline" || nm == "SetWriteDeadline" || nm == "SetDeadline") && !isClear(i)
+	}
+	n := 0
+	for _, b := range fn.Blocks {
+		for _, in := range b.Instrs {
+			g, ok := in.(*ssa.Go)
+			if !ok || g.Common().StaticCallee() != hj {
+				continue
+			}
+			n++
+			// from every arming call (and from the function entry) the go statement is not reachable without a clear
+			var bad []string
+			starts := []ssa.Instruction{nil}
+			for _, b2 := range fn.Blocks {
+				for _, i2 := range b2.Instrs {
+					if isArm(i2) {
+						starts = append(starts, i2)
+					}
+				}
+			}
+			var witness []*ssa.BasicBlock
+			for _, s := range starts {
+				if hit, path := reachAvoiding(fn, s, func(i ssa.Instruction) bool { return i == in }, isClear, nil); hit != nil {
+					where := "the function entry"
+					if s != nil {
+						where = "the deadline armed at " + p.Pos(s.Pos())
+					}
+					bad = append(bad, where)
+					if witness == nil {
+						witness = path
+					}
+				}
+			}
+			sort.Strings(bad)
+			r.Check("R9", "serve loop: the connection's deadlines are cleared unconditionally on every path into the hijack hand-off", len(bad) == 0, p.Pos(in.Pos()),
+				"'go hijackConnHandler' is reachable without SetDeadline(zero) from "+strings.Join(bad, ", ")+": a deadline armed for the request (server timeouts, or HeaderReceived's per-request ones) stays on the hijacked connection, the hijack handler's reads fail with a timeout instead of delivering what the client sends later", blocksString(p, witness)...)
+		}
+	}
+	r.Floor("R9", "hijack hand-offs", n, 1)
+}
+
+func isZeroTimeValue(v ssa.Value) bool {
+	if u, ok := v.(*ssa.UnOp); ok && u.Op == token.MUL {
+		if a, ok := u.X.(*ssa.Alloc); ok {
+			// a local time.Time that is never written is the zero time
+			for _, ref := range *a.Referrers() {
+				if _, isStore := ref.(*ssa.Store); isStore {
+					return false
+				}
+			}
+			return true
+		}
+	}
+	return false
 }
